@@ -105,6 +105,9 @@ theorem imager_fit_then_transform (img : State K → Bool → Dgm K → ι) (zer
   simp only [imagerFitTransform, hcopy]
   cases fit cl s skew X <;> rfl
 
+/-- non-vacuity: `deepcopy` modelled as the identity meets the contract -/
+example : ∀ X : Input ℚ, id X = X := fun _ => rfl
+
 /-- the same as a statement about call histories: replacing any `fit_transform(X)` call by the two
     calls `fit(X); transform(X)` changes neither whether the history raises nor the state it reaches -/
 theorem imager_fit_then_transform_history (img : State K → Bool → Dgm K → ι) (zeros : Int → Int → ι)
